@@ -57,6 +57,15 @@ def obligations(tier, seed):
         if tier != 'quick' or nm in ('add', 'sub', 'tagged-hash', 'echo', 'len'): add('tf/%s/two-arguments-sym1' % nm, kind='tfline', line=[nm, ('sym', 1), ('sym', 1)])
     for ln in ([], ['-h'], ['nosuchfunction', 'x'], [('sym', 2)], ['hex', '0x'], ['hex', '[', ']'], ['add', '0x01', '0x02', '0x03', '0x04'], ['reverse', '""'], ['len', "'"]):
         add('tf/line/%s' % ' '.join(x if isinstance(x, str) else '?' * x[1] for x in ln), kind='tfline', line=ln)
+    # --- interactive command sequences at the prompt (the command functions are called on the state in which main() reached the prompt)
+    SEQS = {'walk': ['print', 'stack', 'altstack', 'vfexec', 'step', 'print', 'step', 'stack', 'rewind', 'rewind', 'rewind', 'step', 'step', 'step', 'step', 'step', 'step', 'print', 'rewind', 'print', 'step'],
+            'exec-sym': ['step', ('exec', ('sym', 2)), 'stack', ('exec', 'OP_DUP', ('sym', 1)), 'print', 'step', 'rewind'],
+            'tf-sym': [('tf', 'hex', ('sym', 2)), ('tf', ('sym', 2)), ('tf',), 'step', ('tf', 'reverse', ('sym', 2))],
+            'args': [('step', ('sym', 1)), ('rewind', ('sym', 1)), ('stack', ('sym', 1)), ('print', ('sym', 1)), ('exec',), ('exec', '')]}
+    for sname, script in (('if', '[OP_1 OP_IF OP_2 OP_TOALTSTACK OP_ENDIF OP_3]'), ('long-push', '[0x' + 'cd' * 300 + ' OP_SIZE]'), ('empty', '[]')):
+        for qname in SEQS:
+            if tier == 'quick' and sname != 'if' and qname != 'walk': continue
+            add('commands/%s/%s' % (sname, qname), kind='cmds', script=script, seq=SEQS[qname])
     # --- btcdeb main
     for n in (1,) if tier == 'quick' else (1, 2): add('btcdeb/script-sym%d' % n, kind='main', args=[('sym', n)], tty=(1, 0, 1), timeout_s=1500)
     for n in (1, 2): add('btcdeb/stack-sym%d' % n, kind='main', args=[('lit', '[OP_DUP OP_DROP]'), ('sym', n)], tty=(1, 0, 1))
@@ -137,6 +146,32 @@ def run(E, ob):
                 cs = sc(x[1], 'l%d_' % i); assume += [z3.And(c != 0, c != 32, c != 10, c != 34, c != 39, c != 92) for c in cs]; chars += cs; syms += cs          # no separators / quotes / escapes (line splitting is the kerl scenario)
         runs = hlib.spec_engine(E, 'w_fn_tf', [('in', chars + [0])], assume)
         return finish(E, ob, res, [r[0] for r in runs], dict(line=[c for c in chars], syms=syms))
+    if k == 'cmds':
+        CMD = {'step': '@_Z7fn_stepPKc', 'rewind': '@_Z9fn_rewindPKc', 'stack': '@_Z8fn_stackPKc', 'altstack': '@_Z11fn_altstackPKc', 'vfexec': '@_Z9fn_vfexecPKc', 'exec': '@_Z7fn_execPKc', 'tf': '@_Z5fn_tfPKc', 'print': '@_Z8fn_printPKc'}
+        states = [f for f in maindeb.run_main(E, [list(b'btcdeb'), list(ob['script'].encode())], (1, 1, 1), None, []) if f.result == ('exit', 1000)]
+        if not states: res['status'] = 'inconclusive'; res['note'] = 'main() did not reach the prompt'; return res
+        finals = []; syms = []; n = 0
+        for ci, c in enumerate(ob['seq']):
+            name = c if isinstance(c, str) else c[0]; parts = [] if isinstance(c, str) else list(c[1:])
+            chars = []; extra = []
+            for pi, x in enumerate(parts):
+                if pi: chars.append(32)
+                if isinstance(x, str): chars += list(x.encode())
+                else:
+                    cs = sc(x[1], 'k%d_%d_' % (ci, pi)); extra += [z3.And(v != 0, v != 32, v != 10, v != 34, v != 39, v != 92) for v in cs]; chars += cs; syms += cs
+            nxt = []
+            for f in states:
+                g = f.clone(); g.frames = []; g.result = None; g.pc = list(g.pc) + extra; g.model = None
+                a = E.alloc(g, len(chars) + 1, 'heap')
+                for i, b in enumerate(chars + [0]): E.store(g, a + i, 1, b)
+                E.call(g, CMD[name], [a])
+                for h_ in E.run(g):
+                    n += 1
+                    if h_.result and h_.result[0] == 'ret': nxt.append(h_)
+                    else: finals.append(h_)          # a crash ends this branch and is reported by finish()
+            states = nxt[:24]                          # bound on the number of concurrent branches (symbolic arguments fork)
+            if not states: break
+        return finish(E, ob, res, finals + states, dict(syms=syms))
     if k == 'bechempty':
         # a valid bech32 string with an empty data part: "bc1" + checksum (computed by the reference polymod)
         s = C14.bech32_ref([], 0)
